@@ -50,4 +50,4 @@ _orm.define(globals(), "C35", ("C35",), "lifecycle",
             "configurations; per-object comparison (global order among different objects is not part of the property).  Sampled.",
             "self-consistency oracle: which objects an operation should move is judged by C39/C33, here only that state changes and events agree",
             weights={"delete": 4, "expunge": 2, "rollback": 3, "commit": 3, "begin_nested": 2, "sp_commit": 1, "sp_rollback": 2, "close": 1,
-                     "add": 3, "k_rename": 2, "row_replace": 2, "merge": 1}, fault_fn=_orm.txn_faults, shape=_shape)
+                     "add": 3, "k_rename": 2, "row_replace": 2, "merge": 1, "make_transient": 3}, fault_fn=_orm.txn_faults, shape=_shape)
